@@ -70,3 +70,35 @@ def rerun(case, tokenizer=None):
         cs = get_citations(markup_text=case["markup"], clean_steps=case["steps"], tokenizer=T)
         return clean_text(case["markup"], case["steps"]), cs
     return case["text"], get_citations(case["text"], tokenizer=T)
+
+
+def suite_under_contracts(rec, keep_prefix):
+    """W5: run the repository's own test-suite in this process with the universal contracts installed on
+    the real functions; only violations of monitors starting with `keep_prefix` are kept by the caller's
+    property. Test failures themselves are not judged here (the baseline does that)."""
+    import os
+    import pytest
+    from vmon import core, instrument
+
+    class Filter:
+        def __init__(self, rec):
+            self.rec = rec
+
+        def count(self, k, n=1):
+            self.rec.count(k, n)
+
+        def violation(self, mon, case, **kw):
+            if mon.startswith(keep_prefix):
+                self.rec.violation(mon, case, **kw)
+
+    instrument.install(Filter(rec), what=("tokenize", "get_citations", "filter_citations"))
+    instrument.SINK = Filter(rec)
+    before = dict(instrument.EVALS)
+    rc = pytest.main(["-q", "-p", "no:cacheprovider", "-x", "--no-header", "-W", "ignore",
+                      os.path.join(core.REPO, "tests")])
+    rec.count("suite_under_contracts_runs")
+    rec.count("suite_exit_code_%s" % int(rc))
+    n = sum(instrument.EVALS.values()) - sum(before.values())
+    rec.count("suite_contract_evaluations", n)
+    rec.ev(max(n, 0))
+    instrument.SINK = rec
